@@ -149,6 +149,16 @@ def run(ctx):
     ctx.trusted += ["coq/Ndx/Layout.v + GetItem.v re-indexing operators as the semantics of ONNX Transpose/Unsqueeze/Squeeze/Slice/Gather/Reshape/Expand/Concat/Trilu (validated by the in-Coq correspondence on every run)"]
     ctx.not_discharged += ["closed-form equality with NumPy for permute_dims/reshape/concat/stack/take/broadcast_to: the executable model is compared with the implementation in Coq and the implementation with NumPy; theorems exist for roll (index arithmetic), flip (via slice_1d) and naturality"]
     ctx.static_build()
+    try:
+        from translate import gen_src
+        (ctx.work / "GenFlipForm.v").write_text(gen_src.emit_flip_form(gen_src.flip_form()))
+        ctx.compile("T-src: GenFlipForm.v (UniformShapeOperations.flip as a form: rank-0 shortcut, which axis arguments are normalised, the slice of member axes; every other statement must read as transcribed) compiles", ctx.work / "GenFlipForm.v")
+        ft = ctx.work / "TieFlipForm.v"
+        ft.write_text((core.VERIF / "tools/templates/TieFlipForm.v").read_text())
+        ctx.compile("C11_flip_nd_as_written: flip as read off today's source reverses exactly the requested axes of every tensor of every rank (None, scalar and list axis arguments, negative entries)", ft, kind="theorem")
+        ctx.translator_inputs["ndonnx/_core/_shapeimpl.py"] = core.sha256_file(core.REPO / "ndonnx/_core/_shapeimpl.py")
+    except gen_src.Untranslatable as e:
+        ctx.obligation("T-src: UniformShapeOperations.flip inside the translator's whitelist", False, str(e), "tie")
     in_coq_corr(ctx, rnd, 900 if ctx.tier == "quick" else 8000)
     n = 600 if ctx.tier == "quick" else 6000
     cases = families.layout_cases(rnd, n, prefix="L")
